@@ -239,10 +239,11 @@ def diff_method(ref_m, cur_m, field_filter, want_returns=True, want_appends=True
     cr = [(c, f) for c, f in cr if f]
     ra, ca = _explode(rr), _explode(cr)
     missing, extra = ra - ca, ca - ra
-    if bool(missing) != bool(extra):
-        # one side is a superset of the other: branches with a common tail were merged into one constructor call (the call then sees the
-        # union of what reaches it, so field values combine that never occurred together) or such a call was split.  That is no change of
-        # wiring as long as every field of every class still receives exactly the same set of values.
+    if extra and not missing:
+        # every reviewed combination is still there and there are more: branches with a common tail were merged into one constructor call
+        # (the call then sees the union of what reaches it, so field values combine that never occurred together).  That is no change of
+        # wiring as long as every field of every class still receives exactly the same set of values.  (The converse - combinations that
+        # disappeared - is a lost flow and is reported.)
         def by_field(recs):
             d = {}
             for c, f in recs:
